@@ -52,6 +52,9 @@ def pick_rows():
                     continue
                 for has_yaml, has_json, has_other, fallback in itertools.product((0, 1), repeat=4):
                     yield dict(arg=arg, loc=loc, val=val, hasYaml=has_yaml, hasJson=has_json, hasOther=has_other, fallback=fallback)
+                    if fallback:
+                        # the fallback switch left at its documented default (on): the argument is not passed at all
+                        yield dict(arg=arg, loc=loc, val=val, hasYaml=has_yaml, hasJson=has_json, hasOther=has_other, fallback=1, _omit_fallback=1)
 
 
 def run_pick(row):
@@ -82,7 +85,10 @@ def run_pick(row):
         if row['loc'] == 'set_override':
             conf.set_override('policy_file', row['val'], group='oslo_policy')
         conf.set_override('policy_dirs', [], group='oslo_policy')
-        e = policy.Enforcer(conf, policy_file=row['arg'] or None, fallback_to_json_file=bool(row['fallback']))
+        if row.get('_omit_fallback'):
+            e = policy.Enforcer(conf, policy_file=row['arg'] or None)
+        else:
+            e = policy.Enforcer(conf, policy_file=row['arg'] or None, fallback_to_json_file=bool(row['fallback']))
         c['picked'] = e.policy_file
         for fn in files:
             if e.enforce('n', {}, {'roles': [fn]}):
